@@ -517,10 +517,26 @@ func (fx *FuncCtx) builtinAppend(st *State, args []Val, rt types.Type, pos token
 		na := fx.decls.fresh("app$arr", "(Array "+fx.mode.lenSort()+" "+ec.sort+")")
 		inS := and(fx.lenCmp("<=", fx.lenNum(0), qi), fx.lenCmp("<", qi, s.C[2]))
 		inT := and(fx.lenCmp("<=", s.C[2], qi), fx.lenCmp("<", qi, newLen))
-		body := and(
-			implies(inS, eq(sx("select", na, qi), sx("select", sx("select", cur, s.C[0]), fx.lenOp("+", s.C[1], qi)))),
-			implies(inT, eq(sx("select", na, qi), sx("select", sx("select", cur, t.C[0]), fx.lenOp("+", t.C[1], fx.lenOp("-", qi, s.C[2]))))))
+		body := implies(inS, eq(sx("select", na, qi), sx("select", sx("select", cur, s.C[0]), fx.lenOp("+", s.C[1], qi))))
+		if t.Tup == nil {
+			body = and(body, implies(inT, eq(sx("select", na, qi), sx("select", sx("select", cur, t.C[0]), fx.lenOp("+", t.C[1], fx.lenOp("-", qi, s.C[2]))))))
+		}
 		st.assume("(forall ((" + qi + " " + fx.mode.lenSort() + ")) (! " + body + " :pattern (" + sx("select", na, qi) + ")))")
+		if t.Tup != nil {
+			// explicit elements of a variadic pack: append(s, e0, e1, ...)
+			ci := 0
+			for ci2, c2 := range fx.mode.comps(et) {
+				if c2.suffix == ec.suffix {
+					ci = ci2
+				}
+			}
+			for j, ev := range t.Tup {
+				evv := fx.adapt(ev, et)
+				if ci < len(evv.C) {
+					st.assume(eq(sx("select", na, fx.lenOp("+", s.C[2], fx.lenNum(int64(j)))), evv.C[ci]))
+				}
+			}
+		}
 		fx.heapSet(st, k, sx("store", cur, r, na))
 	}
 	fx.trusted["append modelled as reallocation: the result never aliases its argument (in-place growth into spare capacity is not modelled)"] = true
@@ -881,7 +897,7 @@ func (fx *FuncCtx) frameObligations(st *State, env *SpecEnv, pos token.Pos) {
 		if ws := st.writes[key]; ws != nil && !ws["*"] {
 			okAll := true
 			for w := range ws {
-				ok := st.freshRefs[w]
+				ok := st.freshRefs[w] || w == "fresh-in-loop"
 				if a != nil && !strings.HasPrefix(key, "A$") {
 					for _, r := range a.refs {
 						if r == w {
